@@ -6,8 +6,9 @@ package corscache
 
 // C34. The cached CORS configuration of a bucket is dropped AFTER the wrapped storage changed it: an invalidation that
 // ran before the write could be undone by a reader that re-caches the old configuration while the write is in flight,
-// and nothing would drop that entry afterwards. The entry dropped is the one of the bucket that was written.
-//@ methods m *corsCacheStorageMiddleware of storage.Storage in PutBucketCORSConfiguration DeleteBucketCORSConfiguration
+// and nothing would drop that entry afterwards. The entry dropped is the one of the bucket that was written. Deleting the
+// bucket deletes its configuration with it, so it is such a write too.
+//@ methods m *corsCacheStorageMiddleware of storage.Storage in PutBucketCORSConfiguration DeleteBucketCORSConfiguration DeleteBucket
 //@ mode effects
 //@ effect[C34:cors-cache-dropped-after-the-write] every m.Next.$M(_, storage.BucketName($b), __)
 //@     needs after m.invalidate($k) where $k == $b.String()
